@@ -255,3 +255,27 @@ def spec_great_circle(x1, x2, y1, y2, radius):
     dlat = lat2 - lat1
     a = sin(dlat / 2.0) * sin(dlat / 2.0) + cos(lat1) * cos(lat2) * (sin(dlon / 2.0) * sin(dlon / 2.0))
     return radius * 2 * asin(sqrt(a))
+
+
+# ------------------------------------------------------------------ C02 / C04 zonal
+def strictly_ascending(a, n):
+    return all(a[i] < a[j] for i in range(0, n) for j in range(i + 1, n))
+
+
+def nondecreasing(a, n):
+    return all(a[i] <= a[j] for i in range(0, n) for j in range(i, n))
+
+
+def zone_start(zone_breaks, i):
+    # the run of zone i in the sorted value vector starts where the previous run ends
+    if i == 0:
+        return 0
+    return zone_breaks[i - 1]
+
+
+def spec_calc_stat(values_by_zones, zone_breaks, unique_zones, zone_ids, nzi, func, nodata, i):
+    # statistic of exactly the finite, non-nodata values of zone i's run - or NaN when the zone is not selected / has none
+    zv = valid_values(values_by_zones[zone_start(zone_breaks, i):zone_breaks[i]], nodata)
+    if any(zone_ids[k] == unique_zones[i] for k in range(0, nzi)) and len(zv) > 0:
+        return func(zv)
+    return nan
